@@ -289,7 +289,7 @@ def run(chk, ctx):
     for cshort, pt in (('commands.Basic.Properties', ptypes),
                        ('header.ContentHeader',
                         {'weight': 'int', 'body_size': 'int',
-                         'properties': 'inst'})):
+                         'properties': 'inst:commands.Basic.Properties'})):
         cci = prog.cls(cshort)
         r = ctors.passthrough(ctx, cci, pt)
         if r is None:
